@@ -285,7 +285,7 @@ func run(prop, tier string) int {
 		fmt.Fprintf(os.Stderr, "plan parse: %v\n", err)
 		return 2
 	}
-	deriveCompany(&rc.plan, prop, tier)
+	deriveCompany(&rc.plan, prop, tier, bin)
 	for _, ph := range rc.plan.Phases {
 		if ph.Race && rc.bins[true] == "" {
 			b, err := buildWorker(tmp, true)
@@ -368,9 +368,22 @@ var companyProps = map[string]bool{"C03": true, "C04": true, "C05": true, "C06":
 
 const companySuffix = "+company"
 
-func deriveCompany(p *fw.Plan, prop, tier string) {
+// swallowedProps get the fixed grid of cmd/vworker/swallowed.go (round 10): a fault at a particular point of
+// an expression or statement form, swallowed by ??, a catching function or try/catch, judged against the
+// fault-free sibling program; every property gets the forms that are instances of its statement.
+var swallowedProps = map[string]bool{"C03": true, "C04": true, "C05": true, "C06": true, "C07": true, "C08": true, "C09": true,
+	"C10": true, "C11": true, "C19": true}
+
+func deriveCompany(p *fw.Plan, prop, tier, bin string) {
 	if os.Getenv("VERIF_NO_COMPANY") != "" {
 		return
+	}
+	if swallowedProps[prop] {
+		if out, err := exec.Command(bin, "-child", "generic-count", "swallowed", prop).Output(); err == nil {
+			if n, err := strconv.Atoi(strings.TrimSpace(string(out))); err == nil && n > 0 {
+				p.Phases = append(p.Phases, fw.Phase{Name: "swallowed", Cases: n, Chunk: 100, Exhaust: true, TimeoutS: 900})
+			}
+		}
 	}
 	if prop == "C14" {
 		// "executions share no hidden mutable state": the battery alone, eight executions at a time in
@@ -1043,7 +1056,7 @@ func replay(path string) int {
 		return 2
 	}
 	json.Unmarshal(out, &rc.plan)
-	deriveCompany(&rc.plan, v.Property, v.Tier)
+	deriveCompany(&rc.plan, v.Property, v.Tier, bin)
 	for _, ph := range rc.plan.Phases {
 		if ph.Name != v.Phase {
 			continue
